@@ -741,6 +741,52 @@ def comparison_guard(fl, site_bb, x_desc, minimum):
                 edge = f_succ
         if edge is not None and panic.passes_true_edge(b, bb, edge, site_bb):
             return "dominated by %s(%s, %s) at %s" % (op, sa, sc, loc_str(b.blocks[bb].term.span))
+    # the items a closure sees may have passed an upstream `.filter(|x| len(x) > k)` of the same iterator chain
+    if b.kind == "closure" and _FLOWS[0] is not None:
+        flows = _FLOWS[0]
+        want = shape_str(x_desc)
+        for (pp, s_) in flows.closure_sites(b.path):
+            pf = flows.of(pp)
+            cl = pf.copies_of(s_.lhs.local)
+            for t in pf.b.calls():
+                if not t.callee or not any(a.place is not None and a.place.local in cl for a in t.args[1:]):
+                    continue
+                recv = t.args[0]
+                hops = 0
+                while recv is not None and hops < 8:
+                    hops += 1
+                    oc = panic.origin_call(pf, recv)
+                    if oc is None or not oc.callee or not oc.args:
+                        break
+                    if oc.callee.short.endswith("Iterator::filter") and len(oc.args) > 1:
+                        fc = None
+                        for a in oc.args[1:]:
+                            if a.place is not None and a.place.local in pf.closure_locals:
+                                fc = pf.closure_locals[a.place.local]
+                            elif a.is_const() and a.c and "closure" in a.c:
+                                fc = a.c["closure"]
+                        if fc and fc in flows.prog.bodies:
+                            fb = flows.prog.bodies[fc]
+                            ff = flows.of(fb)
+                            for (dbb, d) in fb.assigns_to(0):
+                                rv = getattr(d, "rv", None)
+                                dd = norm(ff.describe_def(d, depth=8)) if rv is not None else None
+                                if isinstance(dd, tuple) and dd[0] == "binop":
+                                    op2, a2, c2 = dd[1], dd[2], dd[3]
+                                    k2 = None
+                                    if shape_str(a2) == want and c2[0] == "const":
+                                        m2 = re.match(r"const (\d+)_", c2[1])
+                                        k2 = int(m2.group(1)) if m2 else None
+                                        okf = k2 is not None and ((op2 == "Gt" and k2 >= minimum - 1) or (op2 == "Ge" and k2 >= minimum))
+                                    elif shape_str(c2) == want and a2[0] == "const":
+                                        m2 = re.match(r"const (\d+)_", a2[1])
+                                        k2 = int(m2.group(1)) if m2 else None
+                                        okf = k2 is not None and ((op2 == "Lt" and k2 >= minimum - 1) or (op2 == "Le" and k2 >= minimum))
+                                    else:
+                                        okf = False
+                                    if okf and len(fb.assigns_to(0)) == 1:
+                                        return "items pass an upstream filter %s(%s, %s) at %s" % (op2, fmt_desc(a2), fmt_desc(c2), loc_str(oc.span))
+                    recv = oc.args[0]
     return None
 
 
